@@ -5,6 +5,7 @@ package cluster
 
 import (
 	"fmt"
+	"io"
 	"sort"
 	"time"
 
@@ -217,6 +218,11 @@ func readClusterView(r *messages.Reader) (*ClusterView, error) {
 	var memLen uint32
 	if err := r.ReadInto(&viewID, &epoch, &timestamp, &memLen); err != nil {
 		return nil, err
+	}
+	// 成员数来自线上数据：每个成员至少占 5 字节（4 字节 id 长度 + 1 字节标记），超过剩余字节数的数量必然无效，
+	// 必须在分配之前拒绝，否则 30 字节的输入即可触发数十 GB 的 map 预分配
+	if int64(memLen) > int64(r.RemainingSize())/5 {
+		return nil, io.ErrUnexpectedEOF
 	}
 	members := make(map[string]*NodeState, memLen)
 	for i := uint32(0); i < memLen; i++ {
